@@ -120,8 +120,18 @@ pub fn effective_ws(c: &Case) -> WorkspaceSpec {
         base.files.retain(|f| match f.loc.kind {
             FileKind::Plugin(_) | FileKind::ThirdParty(_) => false,
             FileKind::Helper(_) => f.loc.dir != 4,
+            // the repository-level conftest.py stays: it is outside the opened folder, the scan does
+            // not see it, but the user opens it in the editor (see check_case)
+            FileKind::Conftest => f.loc.dir != 4,
             _ => f.loc.dir != 0 && f.loc.dir != 4,
         });
+        // opening a document does not follow its imports (only the scan does): keep the outer
+        // conftest self-contained
+        for f in base.files.iter_mut() {
+            if f.loc.dir == 0 && f.loc.is_conftest() {
+                f.items.retain(|i| !matches!(i, Item::Import(_)));
+            }
+        }
         return with_probes(&base, cfg().names);
     }
     let mut base = c.ws.clone();
@@ -156,6 +166,10 @@ pub fn check_case(c: &Case, info: &mut CaseInfo) -> Outcome {
     if opens_sub(c) {
         info.classes.push("workspace opened at a sub-folder".into());
         db.scan_workspace(Path::new(&format!("{}/a", disk.root)));
+        if let Some(i) = ws.find(&FileLoc { dir: 0, kind: FileKind::Conftest }) {
+            info.classes.push("conftest.py above the workspace folder opened in the editor".into());
+            db.analyze_file(std::path::PathBuf::from(disk.path(&ws.files[i].loc)), &m.rendered[i].text);
+        }
     } else {
         db.scan_workspace(Path::new(&disk.root));
     }
